@@ -21,6 +21,42 @@ CLAIMS = {
         technique='MIR post-dominator / dominator / def-use rules over resolved callees and field accesses + '
                   'compile-fail witness',
         design_ref='§5 C05'),
+    'C10': dict(
+        category='other',
+        text='Static, for every call history: the map cache is keyed by the caller\'s own full option set and the value '
+             'stored under a key is computed by a call that receives those same options; MapOptions\' Eq/Hash are the derived '
+             'ones (cover columns and final_source) (KEY); cached maps and the memoised hash are write-once — only '
+             'readers and first-writers (VacantEntry::insert / Entry::or_insert*) touch the map cache, the cache fields '
+             'are never reassigned (WRITEONCE); memo cells are used through get/get_or_init/clone only and every initialiser '
+             'reads data fields only (MEMO). NOT decided: that replay from (cached map + rope) attributes like the wrapped source.',
+        technique='who-may-call / receiver-type allow-list over resolved callees, def-use key provenance on MIR',
+        design_ref='§5 C10'),
+    'C14': dict(
+        category='other',
+        text='Static, for all values and observer histories: no PartialEq/Hash body (derived or hand-written, including what it '
+             'calls on self) reads cache state except through a memo accessor, memo cells are never compared/hashed/mutated '
+             'themselves and all initialisers of a cell agree (MEMO); `==` of every type compares every data field (EQCOVER); '
+             'Hash reads no data field Eq ignores, i.e. a==b implies equal hashes (HASH-IN-EQ); every hand-written Clone copies '
+             'every data field from self (CLONECOVER). NOT decided: "equal values give equal answers from every observer" as behaviour.',
+        technique='field-access-set analysis (A-FIELDS) over Eq/Hash/Clone cones on MIR; DATA/CACHE classification by Freeze',
+        design_ref='§5 C14'),
+    'C18': dict(
+        category='other',
+        text='Static, for every schedule: cached maps are never removed or replaced (WRITEONCE: only first-writers may write '
+             'the map cache, anywhere in the crate); the sorted-flag/sorted-index publication pair is written data-before-flag '
+             '(FRESH) and read flag-before-data, including by Clone which copies the pair (PUBLISH-ORDER); all source types are '
+             'Send+Sync by auto traits and mutation needs &mut (witnesses), so data-race freedom of the safe code is the '
+             'compiler\'s. NOT decided: sequential consistency of results in general, deadlock freedom with re-entrant callbacks.',
+        technique='who-may-call over resolved callees, dominator ordering of atomic flag vs. guarded data on MIR, compile witnesses',
+        design_ref='§5 C18'),
+    'C20': dict(
+        category='other',
+        text='Static, for all pairs of values: every data field that `==` compares is fed to the hasher, with named exemptions '
+             '(SourceMapSource::name per the statement; fields constant in every constructor) (HASHCOVER); hash cones contain no '
+             'address/TypeId/random/time/thread input, no hash-map iteration and construct only FxHasher (HASHDET); the memoised '
+             'hash is a function of the data only (MEMO). NOT decided: absence of accidental collisions, prefix-freeness.',
+        technique='field-access-set comparison of Eq vs Hash cones; forbidden-callee scan over resolved callees',
+        design_ref='§5 C20'),
 }
 
 NOT_APPLICABLE = {
